@@ -14,6 +14,7 @@ def run(rep, fb, tier):
     from ..rules import lints3 as _l3
     _l3.rule_narrow_arith(rep, fb)
     _l3.rule_cond_unsigned(rep, fb)
+    _l3.rule_narrow_accumulator(rep, fb)
     rep.units = fb.units
     rep.assumptions += [
         "clang 14's parser/type checker and its JSON AST dump are correct",
